@@ -86,9 +86,37 @@ def fill(node, it):
     return (node[0], node[1], node[2], tuple(items))
 
 
-def build(shape0, shape1, kinds):
+CTAG = "ct"          # tag put on the container whose after_tag hook raises
+FEATURE_HOOKS = ("after_feature", "after_tag", "before_feature")
+RULE_HOOKS = ("after_rule", "after_tag", "before_rule")
+
+
+def container_faults(shape0, shape1):
+    """every single container-level hook fault: (container path, hook name)"""
+    for fi, sh in enumerate((shape0, shape1)):
+        for h in FEATURE_HOOKS:
+            yield ((fi,), h)
+        for k, x in enumerate(sh[3]):
+            if x[0] == "R":
+                for h in RULE_HOOKS:
+                    yield ((fi, k), h)
+
+
+def build(shape0, shape1, kinds, cfault=None):
     it = iter(kinds)
-    prog = (fill(shape0, it), fill(shape1, it))
+    prog = [fill(shape0, it), fill(shape1, it)]
+    if cfault and cfault[1] == "after_tag":
+        cp = cfault[0]
+        f = prog[cp[0]]
+        if len(cp) == 1:
+            f = (f[0], f[1] + (CTAG,), f[2], f[3])
+        else:
+            items = list(f[3])
+            r = items[cp[1]]
+            items[cp[1]] = (r[0], r[1] + (CTAG,), r[2], r[3])
+            f = (f[0], f[1], f[2], tuple(items))
+        prog[cp[0]] = f
+    prog = tuple(prog)
     paths = [p for p, _k, _i in P.walk_scenarios(prog)]
     assert len(paths) == len(kinds)
     return prog, paths
@@ -99,13 +127,13 @@ def fname(fi):
 
 
 # ------------------------------------------------------------------------------------------- one real run
-def one_run(m, args, loc2path, faults):
+def one_run(m, args, loc2path, faults, loc2cont=None, cfault=None):
     """Configuration(args) -> collect_feature_locations(config.paths) -> parse_features -> make_formatters ->
     ModelRunner.run(), i.e. what behave.runner.Runner.run_with_paths does, with an own StepRegistry and hooks dict."""
     from behave.runner_util import parse_features, collect_feature_locations
     from behave.formatter._registry import make_formatters
     obs = {"escaped": None, "feed_exc": None, "verdict": None, "status": {}, "selected": {}, "calls": [], "before": [],
-           "after": [], "unknown": [], "present": []}
+           "after": [], "unknown": [], "present": [], "chooks": [], "cstatus": {}}
     config = m["Configuration"](list(args), load_config=False)
     try:
         locations = collect_feature_locations(config.paths)
@@ -124,6 +152,15 @@ def one_run(m, args, loc2path, faults):
             scen.append((p, s))
             obs["selected"][p] = not s.should_skip
     by_id = {id(s): p for p, s in scen}
+    conts = []
+    for f in feats:
+        for c in [f] + [x for x in f.run_items if isinstance(x, m["Rule"])]:
+            cp = (loc2cont or {}).get((c.location.filename, c.line))
+            if cp is None:
+                obs["unknown"].append(str(c.location))
+            else:
+                conts.append((cp, c))
+    cont_id = {id(c): cp for cp, c in conts}
     reg = m["StepRegistry"]()
 
     def make_step(kind):
@@ -152,8 +189,25 @@ def one_run(m, args, loc2path, faults):
         if faults.get(p) == "hooka":
             raise harness.HookFault("after_scenario fault")
 
+    def container_hook(name):
+        def hook(ctx, entity):
+            cp = cont_id.get(id(entity), "?")
+            obs["chooks"].append((name, cp))
+            if cfault == (cp, name):
+                raise harness.HookFault("%s fault" % name)
+        hook.__name__ = name
+        return hook
+
+    def after_tag(ctx, tag):
+        if tag == CTAG:
+            obs["chooks"].append(("after_tag", tag))
+            if cfault and cfault[1] == "after_tag":
+                raise harness.HookFault("after_tag fault")
+
     runner = m["ModelRunner"](config, feats, step_registry=reg)
-    runner.hooks = {"before_scenario": before_scenario, "after_scenario": after_scenario}
+    runner.hooks = {"before_scenario": before_scenario, "after_scenario": after_scenario, "after_tag": after_tag}
+    for name in ("before_feature", "after_feature", "before_rule", "after_rule"):
+        runner.hooks[name] = container_hook(name)
     runner.formatters = make_formatters(config, config.outputs)
     try:
         obs["verdict"] = bool(runner.run())
@@ -162,6 +216,8 @@ def one_run(m, args, loc2path, faults):
     for p, s in scen:
         obs["status"][p] = s.status.name
     obs["fstatus"] = {f.filename: f.status.name for f in feats}
+    for cp, c in conts:
+        obs["cstatus"][cp] = c.status.name
     return obs
 
 
@@ -206,7 +262,10 @@ def check_listing(v, hist, status, order, path2loc, loc2path, text, entries, sta
             p = loc2path[e]
             fst = fstatus.get(e[0], "absent")
             cls = "error" if "error" in (klass(status[p]), klass(fst)) else klass(status[p])
-            v.append(({"subcheck": "rerun.listing", "clause": "missing", "status_class": cls},
+            desc = {"subcheck": "rerun.listing", "clause": "missing", "status_class": cls}
+            if fst == "hook_error":          # only a feature-level hook fault gives a feature this status
+                desc["feature_status"] = fst
+            v.append((desc,
                       "%s; %s:%d (status %s, in a feature with status %s) is not listed; %s"
                       % (where, e[0], e[1], status[p], fst,
                                                                    "file content:\n" + text if text is not None
@@ -237,11 +296,12 @@ def elem_class(path, prog):
 
 # ------------------------------------------------------------------------------------------- the case function
 def rerun_case(case):
-    """case = (shape0, shape1, kinds, stale)"""
-    shape0, shape1, kinds, stale = case
+    """case = (shape0, shape1, kinds, stale[, cfault])   cfault = None | (container path, hook name)"""
+    shape0, shape1, kinds, stale = case[:4]
+    cfault = case[4] if len(case) > 4 else None
     m = harness._imp()
     harness.reset_globals()
-    prog, order = build(shape0, shape1, kinds)
+    prog, order = build(shape0, shape1, kinds, cfault)
     kind_of = dict(zip(order, kinds))
     faults = {p: k for p, k in kind_of.items() if k in ("hookb", "hooka")}
     v = []
@@ -255,11 +315,15 @@ def rerun_case(case):
     try:
         os.chdir(d)
         os.mkdir(FDIR)
-        path2loc, loc2path = {}, {}
+        path2loc, loc2path, loc2cont = {}, {}, {}
         for fi, f in enumerate(prog):
             text, meta = P.render(f, fi)
             with io.open(fname(fi), "w", encoding="utf-8") as fh:
                 fh.write(text)
+            loc2cont[(fname(fi), meta["lines"][(fi,)])] = (fi,)
+            for k, x in enumerate(f[3]):
+                if x[0] == "R":
+                    loc2cont[(fname(fi), meta["lines"][(fi, k)])] = (fi, k)
             for p in order:
                 if p[0] == fi:
                     path2loc[p] = (fname(fi), meta["lines"][p])
@@ -275,20 +339,35 @@ def rerun_case(case):
             base.append("--tags=not x")
 
         # ---------------- run 1
-        o1 = one_run(m, base + [FDIR], loc2path, faults)
+        o1 = one_run(m, base + [FDIR], loc2path, faults, loc2cont, cfault)
         if o1["feed_exc"] or o1["escaped"] or o1["unknown"]:
             v.append(({"subcheck": "run", "clause": "exception-escapes-run" if o1["escaped"] else "harness-premise",
                        "exc": (o1["escaped"] or o1["feed_exc"] or "location").split(":")[0]},
                       "run 1: escaped=%s feed=%s unknown locations=%s" % (o1["escaped"], o1["feed_exc"], o1["unknown"])))
             return {"v": v, "dg": repr(o1), "out": "broken-run"}
         st1 = o1["status"]
+        cut = cfault[0] if cfault and cfault[1].startswith("before_") else None     # nothing inside it may run
+        if cfault:
+            fired = [h for h in o1["chooks"] if h == ((cfault[1], CTAG) if cfault[1] == "after_tag" else
+                                                      (cfault[1], cfault[0]))]
+            if len(fired) != 1 or o1["cstatus"].get(cfault[0]) != "hook_error":
+                v.append(({"subcheck": "run.status", "clause": "container-fault-premise", "hook": cfault[1],
+                           "level": "feature" if len(cfault[0]) == 1 else "rule"},
+                          "run 1: fault %r fired %d times, container status %s, hooks %s"
+                          % (cfault, len(fired), o1["cstatus"].get(cfault[0]), o1["chooks"])))
         for p in order:
-            if st1.get(p) not in EXPECT[kind_of[p]]:
+            if cut is not None and p[:len(cut)] == cut:
+                if st1.get(p) not in ("untested", "skipped"):
+                    v.append(({"subcheck": "run.status", "clause": "ran-after-failed-before-hook", "hook": cfault[1],
+                               "status": str(st1.get(p))},
+                              "run 1: scenario %r ended %s although %s raised" % (p, st1.get(p), cfault[1])))
+            elif st1.get(p) not in EXPECT[kind_of[p]]:
                 v.append(({"subcheck": "run.status", "clause": "kind-gives-other-status", "kind": kind_of[p],
                            "status": str(st1.get(p))},
                           "run 1: scenario %r of kind %s ended %s" % (p, kind_of[p], st1.get(p))))
         text1, entries1 = read_listing(v, "run 1")
-        expected1 = check_listing(v, "run 1 kinds=%s stale=%s" % (list(kinds), stale), st1, order, path2loc, loc2path,
+        expected1 = check_listing(v, "run 1 kinds=%s stale=%s cfault=%s" % (list(kinds), stale, cfault), st1, order,
+                                  path2loc, loc2path,
                                   text1, entries1, stale_text, o1["fstatus"])
 
         # ---------------- feed the file back: selection and second run
@@ -301,8 +380,8 @@ def rerun_case(case):
             for e in entries1:
                 if loc2path[e] not in listed:
                     listed.append(loc2path[e])
-            o2 = one_run(m, base + ["@" + RERUN], loc2path, faults)
-            hist = "run 2 on @%s (%s) kinds=%s" % (RERUN, entries1, list(kinds))
+            o2 = one_run(m, base + ["@" + RERUN], loc2path, faults, loc2cont, cfault)
+            hist = "run 2 on @%s (%s) kinds=%s cfault=%s" % (RERUN, entries1, list(kinds), cfault)
             if o2["feed_exc"]:
                 v.append(({"subcheck": "rerun.feedback", "clause": "exception", "exc": o2["feed_exc"].split(":")[0]},
                           "%s: reading the rerun file back raised %s; file:\n%s" % (hist, o2["feed_exc"], text1)))
@@ -367,8 +446,9 @@ def rerun_case(case):
         nt = None
         if (0 < n_unsucc < len(order)) or (n_unsucc == 0 and stale):
             nt = digest(case)
-        out = (tuple(sorted(set(st1.values()))), min(n_unsucc, 3), text1 is not None, bool(stale), o2 is not None)
-        dg = (text1, sorted(st1.items()), o1["calls"], o1["before"], o1["after"],
+        out = (tuple(sorted(set(st1.values()))), min(n_unsucc, 3), text1 is not None, bool(stale), o2 is not None,
+               cfault and (cfault[1], "feature" if len(cfault[0]) == 1 else "rule"))
+        dg = (text1, sorted(st1.items()), o1["calls"], o1["before"], o1["after"], o1["chooks"], sorted(o1["cstatus"].items()),
               o2 and (sorted(o2["selected"].items()), sorted(o2["status"].items()), o2["calls"], o2["before"]), text2)
         return {"v": v, "nt": nt, "out": out, "dg": dg, "n": 1 if o2 is None else 2}
     finally:
@@ -394,6 +474,7 @@ def cases(tier):
     quick = tier == "quick"
     pairs = QUICK_PAIRS if quick else THOROUGH_PAIRS
     bound = 2 if quick else 4
+    fault_bound = 2 if quick else 3
     for ndev in range(0, bound + 1):            # simplest first over all pairs
         for a, b in pairs:
             s0, s1 = SHAPES[a], SHAPES[b]
@@ -401,20 +482,39 @@ def cases(tier):
             for kinds in assignments(n, ndev):
                 for stale in (0, 1):
                     yield (s0, s1, kinds, stale)
+        if ndev > fault_bound:
+            continue
+        # one container-level hook fault (feature / rule: after_X, after_tag, before_X) x the same scenario kinds;
+        # with a stale file present (the harder case: it has to be replaced or removed)
+        for a, b in pairs:
+            s0, s1 = SHAPES[a], SHAPES[b]
+            n = nslots(s0) + nslots(s1)
+            for cf in container_faults(s0, s1):
+                for kinds in assignments(n, ndev):
+                    yield (s0, s1, kinds, 1, cf)
 
 
 def run(ctx):
     pairs = QUICK_PAIRS if ctx.quick else THOROUGH_PAIRS
     ctx.bounds = {"feature_files": 2, "shape_pairs": len(pairs), "max_nonpass_scenarios": 2 if ctx.quick else 4,
-                  "kinds": len(KINDS), "stale_file": "present/absent",
+                  "kinds": len(KINDS), "stale_file": "present/absent (container-fault cases: present)",
+                  "container_hook_faults": "every single one of after_feature/after_tag/before_feature per feature and "
+                                           "after_rule/after_tag/before_rule per rule",
+                  "max_nonpass_scenarios_with_container_fault": 2 if ctx.quick else 3,
                   "executions": "a case with a rerun file counts 2 (run + re-run), otherwise 1"}
     ctx.sweep(rerun_case, cases(ctx.tier), chunk=16, name="run -> rerun.txt -> run")
     kinds_seen = set()
-    for (statuses, _n, _f, _s, _second) in ctx.outcomes:
+    for (statuses, _n, _f, _s, _second, _cf) in ctx.outcomes:
         kinds_seen |= set(statuses)
     for need in ("passed", "failed", "error", "hook_error", "skipped"):
         ctx.guard(need in kinds_seen, "scenario status %s occurred in run 1" % need)
     ctx.guard(kinds_seen & {"undefined", "pending"} or "error" in kinds_seen, "undefined/pending scenarios occurred")
     ctx.guard(any(o[4] for o in ctx.outcomes), "at least one run -> file -> run history executed")
     ctx.guard(any(o[1] == 0 and o[3] for o in ctx.outcomes), "a stale file had to be removed at least once")
+    cfs = set(o[5] for o in ctx.outcomes if o[5])
+    for lvl, hooks in (("feature", FEATURE_HOOKS), ("rule", RULE_HOOKS)):
+        for h in hooks:
+            ctx.guard((h, lvl) in cfs, "container fault %s at %s level exercised" % (h, lvl))
+    ctx.guard(any(o[5] and o[5][0].startswith("after_") and o[1] > 0 and o[4] for o in ctx.outcomes),
+              "a container with a raising after-hook held unsuccessful scenarios and the file was fed back")
     ctx.guard(len(ctx.nt) >= (1000 if ctx.quick else 20000), "enough discriminating cases")
